@@ -63,6 +63,32 @@ func MainConcurrent(casesFile, outFile string, goroutines, iters int, canary boo
 		}
 	}
 	sum := &ConcSummary{Cases: len(cases), Goroutines: goroutines, GOMAXPROCS: runtime.GOMAXPROCS(0)}
+	// cold start: before anything has run in this process, the goroutines run every case once at
+	// the same time (lazily initialised shared data would be written here); the digests are compared
+	// with the sequential baseline computed afterwards
+	cold := make([]string, len(cases))
+	{
+		var wg sync.WaitGroup
+		var next atomic.Int64
+		for g := 0; g < goroutines; g++ {
+			wg.Add(1)
+			go func() {
+				defer wg.Done()
+				for {
+					i := int(next.Add(1)) - 1
+					if i >= len(cases) {
+						return
+					}
+					c := *cases[i]
+					c.Stress = 2
+					if f := Lookup(c.Pkg); f != nil {
+						cold[i] = digestResult(f(&c))
+					}
+				}
+			}()
+		}
+		wg.Wait()
+	}
 	base := make([]string, len(cases))
 	pairs := map[string]bool{}
 	for i, c := range cases {
@@ -81,6 +107,15 @@ func MainConcurrent(casesFile, outFile string, goroutines, iters int, canary boo
 		pairs[fmt.Sprintf("%s|%t%t%t%t|%s", c.Pkg, c.Memo, c.Stats, c.AllowInvalid, c.NoRecover, c.Entry)] = true
 	}
 	sum.PkgOptPairs = len(pairs)
+	for i := range cases {
+		if cold[i] != "" && cold[i] != base[i] {
+			sum.Mismatches++
+			if len(sum.MismatchSample) < 5 {
+				sum.MismatchSample = append(sum.MismatchSample, fmt.Sprintf("cold-start case %s pkg %s input %q: result differs from its solo result", cases[i].ID, cases[i].Pkg, cases[i].Input))
+			}
+		}
+	}
+	coldMism := sum.Mismatches
 	if canary {
 		// a deliberate race: the detector must report it, otherwise the run proves nothing
 		var wg sync.WaitGroup
@@ -162,7 +197,7 @@ func MainConcurrent(casesFile, outFile string, goroutines, iters int, canary boo
 	}
 	wg.Wait()
 	sum.Parses = parses.Load()
-	sum.Mismatches = mism.Load()
+	sum.Mismatches = mism.Load() + coldMism
 	sum.MaxInFlight = maxIn.Load()
 	sum.OverlapParses = overlap.Load()
 	sum.StateMapIDs = len(mapSeen)
